@@ -2,6 +2,7 @@ package engine
 
 import (
 	"runtime"
+	"time"
 	"unsafe"
 
 	"apdsim/plan"
@@ -361,4 +362,39 @@ func SiteNames() []string {
 		out[i] = s.Func
 	}
 	return out
+}
+
+//go:norace
+func schedProgress() (hookMode, uint64, uint64) { return sMode, sClock, sLockWaits }
+
+// StartStallMonitor watches the simulated clock from a separate goroutine. If
+// a concurrent phase makes no progress for 20 s of wall time, the task that
+// holds the turn is blocked inside a primitive the simulator does not own (a
+// channel, sync.Cond, sync.WaitGroup ...): the other tasks can never be given
+// the processor, so the run cannot be simulated. The process then reports
+// STALL and exits with code 4; the driver counts the run as not simulated and
+// carries on with the next one. (Reading the wall clock here influences no
+// run: it only decides when to give up on one.)
+func StartStallMonitor(report func()) {
+	go func() {
+		var last uint64
+		same := 0
+		for {
+			time.Sleep(500 * time.Millisecond)
+			m, c, w := schedProgress()
+			if m != modeSched {
+				same = 0
+				continue
+			}
+			if c+w == last {
+				same++
+			} else {
+				same = 0
+				last = c + w
+			}
+			if same >= 40 {
+				report()
+			}
+		}
+	}()
 }
